@@ -322,6 +322,11 @@ def c04(ctx):
     consts = {"MaxLen": 4 if ctx.quick else 5, "Sigma": SIGMA12, "AllowSets": "{0}" if ctx.quick else "{0, 7}"}
     r = C.tlc_mc("C04_MC_Pause", "MC_Pause", cfg(constants=consts, invariants=["Inv_C04", "Bounded"]), workers=12, timeout=3000, heap="12g", coverage=False)
     ctx.add_mc(r)
+    # the windowed reader refines the abstract one: every composition of the input into reads x capacities (and pauses)
+    for nm, pauses, maxdoc in (("MC_ReaderBuf", "FALSE", 10 if ctx.quick else 12), ("MC_ReaderBuf_pauses", "TRUE", 8 if ctx.quick else 10)):
+        rb = C.tlc_mc("C04_" + nm, "MC_ReaderBuf", cfg(constants={"Caps": "{16, 17}" if ctx.quick else "{16, 17, 20, 64}", "MaxDoc": maxdoc, "WithPauses": pauses},
+                      invariants=["Refines", "WinInv", "CapInv"]), workers=8, timeout=3000, heap="12g", coverage=False)
+        ctx.add_mc(rb)
     reader_check(ctx, "C04", None, ["reader:sched", "reader:sched_smallcap", "reader:cut"], gen_args=None)
     ctx.rule = "one evaluation = one run; each case holds the reference run (whole input at once) and runs under read schedules (every partition for inputs <= 8 bytes quick / 11 thorough, random otherwise), capacities 0..4096 and temporary EOFs at tag boundaries; relation P_C04 (equal results incl. first error)"
 
@@ -592,3 +597,74 @@ def replay(ctx, path):
     ctx.samples.append({"replayed": path})
     ctx.rule = "replay of one recorded case"
     ctx.mc.append({"name": "replay", "states": tr["states"], "transitions": tr["states"], "depth": tr["states"], "wall_s": tr["wall_s"], "cmd": tr["cmd"], "coverage": {}})
+
+
+# --------------------------------------------------------------------------- binding self-test
+def selftest():
+    """Demonstrates that the specification is bound to the recorded executions: corrupt one recorded field, or remove one
+    event, of an accepted trace and require the rejection at exactly that place."""
+    import copy
+    C.build_harness()
+    wd = C.ensure_dir(os.path.join(C.WORK, "selftest"))
+    results = []
+
+    def gen(driver, name, cut=True):
+        tf = os.path.join(wd, name + ".ndjson")
+        C.run_harness([driver, "--out", tf, "--seed", 7, "--tier", "quick"])
+        lines = C.read_lines(tf)[:6000]
+        # cut at a case boundary
+        while cut and lines and '"ev":"end"' not in lines[-1]:
+            lines.pop()
+        return lines
+
+    def run(module, mode, lines, label, expect_line):
+        tf = os.path.join(wd, "t.ndjson")
+        with open(tf, "w") as f:
+            f.write("\n".join(lines) + "\n")
+        tr = C.tlc_trace("selftest", module, tf, None, "", 600, "3g", {"MODE": mode})
+        hit = [int(r[0]) for r in tr["rejects"]]
+        ok = (expect_line is None and not hit) or (expect_line is not None and hit and min(hit) in expect_line)
+        results.append((label, ok, hit[:3], expect_line))
+        C.log("  %-70s %s  rejected at %s (expected %s)" % (label, "ok" if ok else "FAILED", hit[:3], "none" if expect_line is None else sorted(expect_line)[:3]))
+
+    def corrupt(lines, pick, mutate):
+        k = next(i for i, l in enumerate(lines) if pick(json.loads(l)) and i > 20)
+        e = json.loads(lines[k])
+        mutate(e)
+        out = list(lines)
+        out[k] = json.dumps(e, separators=(",", ":"))
+        return out, k + 1
+
+    # reader
+    docs = gen("reader:cut", "cut")
+    run("ReaderTrace", "L1", docs, "reader trace accepted unchanged (L1)", None)
+    t, k = corrupt(docs, lambda e: e.get("ev") == "next" and e.get("res") == "item" and e.get("kind") == "elem", lambda e: e.__setitem__("off", e["off"] + 1))
+    run("ReaderTrace", "L1", t, "reader L1: offset of one item + 1", {k})
+    run("ReaderTrace", "C03", t, "reader C03: offset of one item + 1", {k})
+    t, k = corrupt(docs, lambda e: e.get("ev") == "next" and e.get("res") == "item" and e.get("kind") == "elem" and e["val"], lambda e: e["val"].__setitem__(len(e["val"]) - 1, (e["val"][-1] + 1) % 256))
+    run("ReaderTrace", "C03", t, "reader C03: one value byte changed", {k})
+    t, k = corrupt(docs, lambda e: e.get("ev") == "next" and "st" in e, lambda e: e["st"].__setitem__("len", e["st"]["len"] + 1))
+    run("ReaderTrace", "LB", t, "reader LB: buffered length (hook) + 1", {k})
+    k = next(i for i, l in enumerate(docs) if '"kind":"start"' in l and i > 20)
+    run("ReaderTrace", "L1", docs[:k] + docs[k + 1:], "reader L1: one next event (a Start) removed", {k + 1, k + 2, k + 3, k + 4})
+    run("ReaderTrace", "C06", docs[:k] + docs[k + 1:], "reader C06: one Start removed", {k + 1, k + 2, k + 3, k + 4})
+    # writer
+    w = gen("writer:calls", "calls")
+    run("WriterTrace", "L1", w, "writer trace accepted unchanged (L1)", None)
+    t, k = corrupt(w, lambda e: e.get("ev") == "write" and e.get("dest_tail"), lambda e: e["dest_tail"].__setitem__(0, (e["dest_tail"][0] + 1) % 256))
+    run("WriterTrace", "L1", t, "writer L1: one delivered byte changed", {k})
+    t, k = corrupt(w, lambda e: e.get("ev") == "write" and e.get("res") not in ("ok", None), lambda e: e.__setitem__("res", "ok"))
+    run("WriterTrace", "L1", t, "writer L1: a rejected call recorded as ok", {k})
+    # codec
+    cdc = gen("codec", "codec", cut=False)
+    t, k = corrupt(cdc, lambda e: e.get("fn") == "read_vint" and e.get("res") == "ok", lambda e: e.__setitem__("len", e["len"] + 1))
+    run("CodecTrace", "C15", t, "codec: consumed length of one read_vint + 1", {k})
+    # paths
+    pth = gen("paths", "paths")
+    t, k = corrupt(pth, lambda e: e.get("ev") == "path" and e.get("w") == "ok", lambda e: e.__setitem__("w", "unexpected_tag"))
+    run("PathTrace", "C11", t, "paths: one writer verdict flipped", {k})
+    bad = [r for r in results if not r[1]]
+    C.log("selftest: %d checks, %d failed" % (len(results), len(bad)))
+    with open(os.path.join(C.VERIF, "evidence", "binding_selftest.json"), "w") as f:
+        json.dump({"checks": [{"what": r[0], "ok": r[1], "rejected_at": r[2]} for r in results]}, f, indent=1)
+    return 1 if bad else 0
